@@ -49,11 +49,14 @@ def C01(ctx):
     T.c05_t1(ctx, f)
     T.c05_t2(ctx, f)
     T.c06_t1(ctx, f)
-    T.c06_t4(ctx, f)
     T.c07_t1(ctx, f)
-    E.c06_t2(ctx, f)
-    E.c06_t3(ctx, f)
-    E.c06_r1(ctx, f)
+    d_app = G.c06_r3(ctx, f)
+    d_enc = G.c06_r2(ctx, f)
+    sctx6 = soft_if(ctx, d_app and d_enc, "C06.R2/R3")
+    T.c06_t4(soft_if(ctx, d_app, "C06.R3"), f)
+    E.c06_t2(sctx6, f)
+    E.c06_t3(sctx6, f)
+    E.c06_r1(sctx6, f)
     R.c01_r1(ctx, f)
     R.c01_r2(ctx, f)
     R.c04_r1(ctx, f)
@@ -134,7 +137,8 @@ def C05(ctx):
     T.c05_t2(ctx, f)
     R.c05_gate(ctx, f)
     T.c06_t1(ctx, f)
-    E.c06_t3(ctx, f)
+    d_enc = G.c06_r2(ctx, f) and G.c06_r3(ctx, f)
+    E.c06_t3(soft_if(ctx, d_enc, "C06.R2/R3"), f)
     witness.rule(ctx, "C05.W1", "the error type has exactly the two documented variants", ["w_c05_error_is_exhaustive", "w_c10_build_type"])
     return dict(
         level="proof",
@@ -146,18 +150,17 @@ def C05(ctx):
 def C06(ctx):
     f = ctx.facts("default")
     T.c06_t1(ctx, f)
-    E.c06_t2(ctx, f)
-    E.c06_t3(ctx, f)
-    T.c06_t4(ctx, f)
-    E.c06_r1(ctx, f)
     T.c09_t2(ctx, f)
-    x("c06_r2", ctx, f)
+    d_app = G.c06_r3(ctx, f)
+    d_enc = G.c06_r2(ctx, f)
+    sctx = soft_if(ctx, d_app and d_enc, "C06.R2/R3")
+    E.c06_t2(sctx, f)
+    E.c06_t3(sctx, f)
+    T.c06_t4(soft_if(ctx, d_app, "C06.R3"), f)
+    E.c06_r1(sctx, f)
     return dict(
         level="other",
-        explanation="Count widths (40x3), pad codewords and their parity, mode indicators, count field, digit-group widths and values "
-                    "(100a+10b+c), alphanumeric pair value (45a+b) and widths, terminator min(.,4), byte-alignment formula, stage "
-                    "order, KEEP_LAST masks for reachable widths, alphanumeric/digit value tables. Not decided: push_bits/push_u8 "
-                    "shift arithmetic beyond what the rules name, the remainder-digit loop.",
+        explanation='push_bits/push_u8 are partially evaluated on symbolic words (every bit a symbol) for 20 alignments x widths 0..20: they append exactly the low `len` bits, most significant first. encode() is partially evaluated with a symbolic payload (affine value expressions with ranges, bit-vector words): for each (mode, version, level, length) cell the data codewords equal the ISO 7.4 stream bit for bit - mode indicator, count field of the ISO width, 100a+10b+c / 10a+b / a in 10/7/4 bits, 45a+b / a in 11/6 bits, bytes, terminator min(4, remaining), zero bits to the byte boundary, 0xEC/0x11 alternating to exactly the data capacity (quick: 252 cells; thorough: all 40 versions x 4 levels x 3 modes x lengths 0..7 and capacity-1, capacity). Count widths (120 cells) and the value tables are exhaustive table obligations. The older constant/shape rules remain as cross-checks.',
     )
 
 
@@ -197,12 +200,11 @@ def C09(ctx):
     T.c09_t1(ctx, f)
     T.c09_t2(ctx, f)
     R.c09_r1(ctx, f)
-    x("c09_r2", ctx, f)
+    d_scan = G.c09_r3(ctx, f)
+    x("c09_r2", soft_if(ctx, d_scan, "C09.R3"), f)
     return dict(
         level="other",
-        explanation="The classifier is folded over all 256 byte values and equals the ISO 45-character set; the value tables agree "
-                    "with it (no admitted byte is rejected or altered by the encoder); the mode used is the forced one, else "
-                    "best_encoding of the same input. Not decided: the two-stage scan over the string beyond what the rules name.",
+        explanation='The classifier is folded over all 256 byte values (= the ISO 45-character set) and agrees with the value tables of the encoders on every admitted byte; best_encoding is partially evaluated over every class pattern (digit / other alphanumeric / other) of inputs up to length 7 (8 in the thorough tier): Numeric iff all digits (including the empty input), Alphanumeric iff all in the set and not all digits, Byte otherwise; the mode used is the forced mode, else best_encoding of the same input.',
     )
 
 
@@ -214,9 +216,18 @@ def C10(ctx):
     T.c02_r1(ctx, f, tot)
     T.c07_r1(ctx, f, lay, deg)
     T.c03_t1(ctx, f)
-    T.c06_t4(ctx, f)
+    T.c06_t4(soft_if(ctx, G.c06_r3(ctx, f), "C06.R3"), f)
     T.c09_t1(ctx, f)
     T.c09_t2(ctx, f)
+    # the configuration-determined stages cannot panic for any configuration (a failed bounds/overflow assert or an explicit panic
+    # met by the partial evaluator is reported by the rule that met it), and they produce what the next stage expects
+    G.prepare(ctx, f, {"blank", "format", "masks", "place"})
+    G.c06_r2(ctx, f)
+    G.c02_r4(ctx, f)
+    G.c03_r3(ctx, f)
+    G.c01_r5(ctx, f)
+    G.c04_r3(ctx, f)
+    G.c08_r4(ctx, f)
     witness.rule(ctx, "C10.W1", "build returns Result<QRCode, QRCodeError>; the error has exactly two variants",
                  ["w_c05_error_is_exhaustive", "w_c10_build_type"])
     x("c10_r1", ctx, f)
@@ -256,15 +267,10 @@ def C12(ctx):
     S.c12_r5(ctx, f)
     S.c12_r6(ctx, f)
     S.c12_t1(ctx, f)
-    x("c12_r7", ctx, f)
+    G.c12_r7(ctx, f)
     return dict(
         level="other",
-        explanation="Injection: forward taint from the image option to the returned markup must pass an attribute escaper "
-                    "recognised by its decision table. Dark-modules-only, per-layer coverage and anchoring are dominance and "
-                    "polynomial facts about the callback call; commands/colours grow together; viewBox, width and height are the "
-                    "same polynomial 2*margin+size; rgba2hex's format templates are decoded (two zero-padded lower-hex digits, "
-                    "alpha iff != 255); built-in shapes dispatch to their generators and start at M{column},{row}. Free-form colour "
-                    "strings are outside the property.",
+        explanation="Injection: forward taint from the image option to the returned markup must pass an attribute escaper recognised by its decision table. The whole document is partially evaluated with symbolic module values for 40 (version, margin, layer program) configurations: square viewBox/background of side size+2*margin in the background colour, one path per layer, exactly one sub-path slot per module taken iff that module is dark and anchored inside the module's cell, each layer filled (stroked) with its colour else the module colour, no other markup. rgba2hex's format templates are decoded (two zero-padded lower-hex digits, alpha iff != 255); commands/colours grow together; every part of the skeleton is emitted on every path. Free-form colour strings are outside the property.",
     )
 
 
